@@ -231,6 +231,10 @@ pub fn ending_programs() -> &'static Vec<E> {
                 out.push(E::Bin(o, b(leaf()), b(cond(CondKind::IfFalse, leaf(), last.clone(), None))));
                 out.push(E::Bin(o, b(leaf()), b(E::Bin(if o == BinOp::And { BinOp::Or } else { BinOp::And }, b(leaf()), b(last.clone())))));
             }
+            // an else-chain whose later condition or arm is the operator (a condition that reserves jump entries of its own)
+            out.push(E::Cond(vec![(CondKind::IfTrue, leaf(), leaf()), (CondKind::IfTrue, last.clone(), leaf())], Some(b(leaf()))));
+            out.push(E::Cond(vec![(CondKind::IfTrue, leaf(), leaf()), (CondKind::IfFalse, E::Bin(BinOp::And, b(leaf()), b(last.clone())), leaf())], Some(b(leaf()))));
+            out.push(E::Cond(vec![(CondKind::IfTrue, leaf(), leaf()), (CondKind::IfTrue, E::Bin(BinOp::Or, b(last.clone()), b(leaf())), last.clone())], Some(b(leaf()))));
             out.push(cond(CondKind::IfTrue, leaf(), last.clone(), Some(leaf())));
             out.push(cond(CondKind::IfTrue, leaf(), leaf(), Some(last.clone())));
             out.push(cond(CondKind::IfFalse, last.clone(), leaf(), Some(leaf())));
